@@ -231,6 +231,23 @@ func goroutineBlocked(goid int64) bool {
 		return false
 	}
 	state := rest[:j]
+	// a task that is handing its park message to the scheduler (or waiting for its resume) is in a
+	// channel operation of the scheduler's own: that is not "blocked on the library's synchronisation"
+	if k := strings.Index(rest, "\n\n"); k > 0 {
+		rest = rest[:k]
+	}
+	for _, line := range strings.Split(rest, "\n")[1:] {
+		if strings.HasPrefix(line, "\t") || line == "" {
+			continue
+		}
+		if strings.HasPrefix(line, "runtime.") || strings.HasPrefix(line, "sync.") || strings.HasPrefix(line, "internal/") || strings.HasPrefix(line, "sync/atomic.") {
+			continue
+		}
+		if strings.HasPrefix(line, "verif/sim.(*Sched).") {
+			return false
+		}
+		break
+	}
 	switch {
 	case strings.HasPrefix(state, "sync."), state == "semacquire", state == "chan receive", state == "chan send", state == "select",
 		strings.HasPrefix(state, "chan receive"), strings.HasPrefix(state, "chan send"), strings.HasPrefix(state, "select"):
